@@ -469,11 +469,21 @@ fn feed_randomly(ctx: &mut Ctx, g: &mut Generator, data: &[u8]) -> String {
                 }
                 plan.push_str(&format!("by_byte/+=u8({}) ", k));
             }
-            5 if k >= 7 => {
-                let arr: [u8; 7] = [chunk[0], chunk[1], chunk[2], chunk[3], chunk[4], chunk[5], chunk[6]];
-                *g += &arr;
-                g.update(&chunk[7..]);
-                plan.push_str(&format!("+=array(7)+update({}) ", k - 7));
+            5 => {
+                // the array form `+= &[u8; N]` for a spread of N, always followed by more updates
+                let n = (*ctx.rng.pick(&crate::util::ARRAY_NS)).min(k);
+                if crate::add_array_std!(*g, &chunk[..n]) {
+                    plan.push_str(&format!("+=array({}) ", n));
+                } else {
+                    g.update(&chunk[..n]);
+                    plan.push_str(&format!("update({}) ", n));
+                }
+                for &b in &chunk[n..] {
+                    g.update_by_byte(b);
+                }
+                if k > n {
+                    plan.push_str(&format!("update_by_byte x{} ", k - n));
+                }
             }
             6 => {
                 let _ = g.finalize();
